@@ -263,6 +263,9 @@ func (p *Prog) modifiesEffect(e *Effect, c *Contract, f *ssa.Function) {
 			e.Ghost = append(e.Ghost, strings.TrimSpace(m[len("ghost "):]))
 		case strings.HasPrefix(m, "pooled "):
 			// not visible to callers
+		case strings.HasSuffix(m, ".content@ghost"):
+			// ghost content of a buffer / reader: callers forget the whole ghost map
+			e.Heap["ghost.content"] = true
 		default:
 			i := strings.Index(m, ".")
 			if i < 0 {
@@ -397,6 +400,13 @@ func (p *Prog) computeEffects() {
 					if sf := cc.StaticCallee(); sf != nil {
 						e.Calls[sf] = true
 						if !p.inModule(sf) {
+							if lc := p.CS.ByKey[sf.String()]; lc != nil && lc.HasMod {
+								for _, m := range lc.Modifies {
+									if strings.HasSuffix(m, ".content@ghost") {
+										e.Heap["ghost.content"] = true
+									}
+								}
+							}
 							for _, a := range cc.Args {
 								if _, ok := a.Type().Underlying().(*types.Pointer); ok {
 									r := staticRoot(a)
